@@ -237,3 +237,22 @@ def header_dims(nl):
         return (ncons, nvars, nobj)
     except Exception:
         return None
+
+
+def header_inconsistent(nl):
+    """True if the ten header lines parse but the counts contradict each other (more nonlinear / integer
+    variables than variables, more nonlinear constraints than constraints, negative counts)"""
+    L = nl.split('\n')
+    try:
+        n = [[int(float(t)) for t in L[k].split('#')[0].split()] for k in range(1, 10)]
+        nvars, ncons, nobjs = n[0][0], n[0][1], n[0][2]
+        allv = [v for row in n for v in row]
+        if min(allv) < 0:
+            return True
+        nlc, nlo = n[1][0], n[1][1]
+        nlvc, nlvo, nlvb = n[3][0], n[3][1], n[3][2]
+        nbv, niv, nlvbi, nlvci, nlvoi = n[5][:5]
+        return (max(nlvc, nlvo, nlvb, nbv + niv, nlvbi, nlvci, nlvoi, max(nlvc, nlvo) + nbv + niv) > nvars
+                or nlc > ncons or nlo > nobjs or nlvb > min(nlvc, nlvo) or max(allv) > 10 ** 7)
+    except Exception:
+        return False
